@@ -403,3 +403,85 @@ def replay_enum_literals(payload):
     rc, out = _run_design(_ENUM_LITERAL_DESIGN)
     return {"reproduced": rc == 0 and ("TWICE" in out or "RESERVED-ACCEPTED" in out),
             "detail": "a signal named like a state literal / an enumeration literal that is a reserved word: " + out[-120:]}
+
+
+# ---- sub-scopes are completed AFTER the names of this scope are published (C06 / C07) ------------------------------------------------
+# A sub-scope builds its set of taken names from `parent._used_names`: if the parent publishes its names only after the sub-scopes
+# are done, a process variable / local signal gets the name of an object of the enclosing scope and hides it (for an output port:
+# `q <= buffer_q;` next to `q <= ...` in a process -- two drivers).
+class _SubScopeProbe:
+    """a sub-scope: its complete_setup records what the parent has published at that moment"""
+
+
+_SubScopeProbe.complete_setup = lambda self: None
+_SubScopeProbe.remove_declaration = lambda self, id: None
+
+
+def _probe_setup(it, self):
+    parent = self.fields["f_parent"]
+    it.probe_seen.append((parent.fields.get("_setup_complete"), parent.fields["_used_names"].term))
+    return None
+
+
+I.register_model(_SubScopeProbe.complete_setup, _probe_setup)
+I.register_model(_SubScopeProbe.remove_declaration, lambda it, self, id: None)
+
+
+def subscope_shape():
+    def make(env):
+        scope = SObj(VhdlScope, _setup_complete=False, _parent=None, _subscopes=[], _declarations={}, _used_names=SSet(z3.Const("U_own", SetS)))
+        scope.fields["_subscopes"] = [SObj(_SubScopeProbe, f_parent=scope), SObj(_SubScopeProbe, f_parent=scope)]
+        return scope
+
+    return Built([], make, lambda asg: "None", lambda asg: None)
+
+
+def subscope_spec(sx, self):
+    it = sx.it
+    real = sx.real_args[0]
+
+    def holds(res):
+        if res is not None or len(it.probe_seen) != 2:
+            return False
+        final = real.fields["_used_names"].term
+        return z3.And(*[z3.BoolVal(done is True) for done, _ in it.probe_seen], *[seen == final for _, seen in it.probe_seen])
+
+    return C.Pred(holds, "every sub-scope is completed after this scope is marked complete and has published its final set of names")
+
+
+c = Case("sub-scopes-see-the-published-names", [subscope_shape()], subscope_spec)
+c.native = False
+
+
+def _sub_setup(it, ctx, args, env):
+    it.probe_seen = []
+    it.case_decl = lambda it_: SObj(VhdlScope.Declaration, obj=SObj(Signal, __name__=SStr(z3.Const("user_name", sym.StrS))), active=True, name_hint=None, name="NOT_SET")
+
+
+c.setup = _sub_setup
+c.custom_replay = "contracts.c06_names.replay_subscope_names"
+C.CONTRACTS[QUAL].cases.append(c)
+
+_SUBSCOPE_DESIGN = '''
+import re
+from cohdl import Entity, Port, Bit, Signal, std
+class Hide(Entity):
+    clk = Port.input(Bit)
+    a = Port.input(Bit)
+    q = Port.output(Bit)
+    def architecture(self):
+        @std.sequential(std.Clock(self.clk))
+        def proc():
+            q = Signal[Bit](name="q")
+            q <<= self.a
+            self.q <<= q
+t = std.VhdlCompiler.to_string(Hide)
+print("SIGNALS-NAMED-q", len(re.findall(r"signal q :", t)), "DRIVERS-OF-q", len(re.findall(r"^\\s*q <= ", t, flags=re.M)))
+'''
+
+
+def replay_subscope_names(payload):
+    from contracts.c06_extra import _run_design
+
+    rc, out = _run_design(_SUBSCOPE_DESIGN)
+    return {"reproduced": rc == 0 and "SIGNALS-NAMED-q 0" not in out, "detail": "a local signal named like the output port q: " + out[-60:]}
